@@ -469,7 +469,7 @@ def missing_complete_text(real, original, cut, parse_real):
 # -- malformed stream -------------------------------------------------------------------------------------
 SOUP = ['a', 'b', 'x', 'color', 'red', ':', ';', '{', '}', '(', ')', '[', ']', ',', '!', '!important', '"s"', "'t'",
         '"open', '/*c*/', '/*open', '@media', '@import', '@charset ', '@namespace', '@page', '@font-face',
-        '@variables', '@MEDIA', '@foo', '@top-left', 'url(x)', 'url(', 'f(', 'rgb(1,2,3)', '10px', '#fff', '.c',
+        '@variables', '@MEDIA', '@foo', '@top-left', '@charset', '@CHARSET', '@c\\harset', '@\\63harset', 'url(x)', 'url(', 'f(', 'rgb(1,2,3)', '10px', '#fff', '.c',
         '<!--', '-->', '\\7b ', '\\3b ', '\\7d ', '\\28 ', 'a\\3b b', 'screen', 'print', 'and', '*', '>', '+', '1',
         '\n', ' ', ' ', ' ', 'p|a', '"u"', 'only']
 
